@@ -76,12 +76,24 @@ def records(rng, delimiter=":", nmin=0, nmax=6, allow_delim=False, patterns=None
         for _ in range(rng.randint(0, max_syn)):
             if len(ups) > n - i:
                 us.append(ups.pop())
+        if rng.random() < 0.12 and p.swapcase() != p and delimiter not in p.swapcase():
+            ps.append(p.swapcase())  # the everyday synonym: a case variant of the record's own prefix (CHEBI / chebi) ...
+            if rng.random() < 0.5 and u.swapcase() != u:
+                us.append(u.swapcase())  # ... and of its own URI prefix
         if ps and rng.random() < 0.04:
             ps.append(ps[0])  # a record may repeat one of its own synonyms: one claim, not a clash
         if us and rng.random() < 0.04:
             us.append(us[-1])
         out.append(spec.Rec(p, u, tuple(ps), tuple(us), rng.choice(PATTERNS) if patterns else None))
-    return out
+    # the case variants added above may collide with another record's strings: drop them there
+    seen_p, seen_u, final = set(), set(), []
+    for r in out:
+        psyn = tuple(x for i, x in enumerate(r.psyn) if x != r.prefix and (x not in seen_p or x in r.psyn[:i]) and not any(x in spec.all_p(o) for o in out if o is not r))
+        usyn = tuple(x for i, x in enumerate(r.usyn) if x != r.uri_prefix and not any(x in spec.all_u(o) for o in out if o is not r))
+        seen_p.update(spec.all_p(r))
+        seen_u.update(spec.all_u(r))
+        final.append(r._replace(psyn=psyn, usyn=usyn))
+    return final
 
 
 def large_records(rng, n, delimiter=":", synonyms=True):
@@ -114,11 +126,14 @@ def mk_record(api, r: spec.Rec):
 
 
 def _fold_distinct(recs):
-    """No two strings of `recs` (CURIE side, URI side) are equal up to letter case unless they are the same string."""
+    """No two *different records* hold strings (CURIE side, URI side) that are equal up to letter case; a record may
+    well list case variants of its own prefix (CHEBI / chebi), the everyday use of case-insensitive registration."""
     for side in (spec.all_p, spec.all_u):
-        strings = {x for r in recs for x in side(r)}
-        if len({x.casefold() for x in strings}) != len(strings):
-            return False
+        owner = {}
+        for i, r in enumerate(recs):
+            for x in side(r):
+                if owner.setdefault(x.casefold(), i) != i:
+                    return False
     return True
 
 
@@ -157,15 +172,40 @@ def build(api, recs, delimiter, rng, how=None, share_lists=False, rejections=Tru
         with probe.monitor_mode():
             c = api.Converter(mk_records_sharing_lists(api, order, rng), delimiter=delimiter)
         return c, "ctor+records-sharing-lists"
+    # one converter in twelve gets its delimiter after construction (`converter.delimiter = ...`, the only way to give
+    # the result of chain() or get_subconverter() another delimiter): every answer follows the attribute
+    built_with = delimiter
+    if rng.random() < 0.08:
+        others = [x for x in DELIMS if x != delimiter and not any(x in p for r in recs for p in spec.all_p(r))]
+        if others:
+            built_with = rng.choice(others)
+            probe.S.counters["wl:delimiter-assigned-after-construction"] += 1
     if rng.random() < 0.25:
         probe.S.counters["wl:built-unobserved"] += 1
         with probe.monitor_mode():
-            c, how = _build(api, recs, delimiter, rng, how)
+            c, how = _build(api, recs, built_with, rng, how)
     else:
-        c, how = _build(api, recs, delimiter, rng, how)
+        c, how = _build(api, recs, built_with, rng, how)
+    if built_with != delimiter:
+        c.delimiter = delimiter
+        how += "+delimiter-assigned-later"
     c, how = _circumstance(api, c, delimiter, rng, how)
+    if rng.random() < 0.25:
+        touch_handed_out_views(c)
     if rejections and rng.random() < 0.3 and not any(x in sp_ for r in recs for sp_ in (*spec.all_p(r), *spec.all_u(r)) for x in ("zzghost", "zz.ghost")):
         rejected_registrations(api, c, rng)
+    if probe.S.prop in QUERY_PROPS:
+        # "for every converter": the converter the caller built through calls that all succeeded is the one they asked
+        # for - every string of the intended map has the owner the map gives it, and nothing else has an owner.  (The
+        # model-based monitors compare answers with `converter.records`; a registration that silently drops or moves
+        # a string changes `records` consistently and would fool them.)
+        probe.evaluated("built-converter-denotes-the-intended-map")
+        want, have = _ownership(recs), _ownership(spec.snapshot(c))
+        if want != have:
+            diff = {side: {k: [want[side].get(k), have[side].get(k)] for k in set(want[side]) | set(have[side]) if want[side].get(k) != have[side].get(k)} for side in want}
+            probe.violation([probe.S.prop], "built-converter-denotes-the-intended-map", f"registered-string-lost-or-moved-after-{how.split('+')[0].split('(')[0]}",
+                            intended_records=[spec.rec_dict(r) for r in recs], records=[spec.rec_dict(r) for r in spec.snapshot(c)],
+                            differences_string_to_intended_and_actual_owner=diff, delimiter=delimiter, built=how)
     if probe.S.prop in UNIQUE_RECORD_PROPS:
         # "its unique record": a converter grown from a clash-free map through the public API has one owner per string
         probe.evaluated("built-converter-has-one-owner-per-string")
@@ -176,12 +216,52 @@ def build(api, recs, delimiter, rng, how=None, share_lists=False, rejections=Tru
     return c, how
 
 
+QUERY_PROPS = {"C01", "C02", "C03", "C06", "C07", "C08"}
+
+
+def _ownership(recs):
+    return {
+        "curie": {p: r.prefix for r in recs for p in spec.all_p(r)},
+        "uri": {u: r.uri_prefix for r in recs for u in spec.all_u(r)},
+    }
+
+
+def touch_handed_out_views(c):
+    """What a method or property *computes and hands out* is the caller's: the dictionaries of bimap / reverse_bimap,
+    the sets of get_prefixes / get_uri_prefixes.  The caller edits them (adds an entry, drops one); the converter must
+    not notice - asked afterwards through every query, compared with its records as always."""
+    touched = 0
+    for name in ("bimap", "reverse_bimap"):
+        try:
+            d = getattr(c, name)
+        except Exception:  # noqa: BLE001
+            continue
+        if isinstance(d, dict):
+            first = next(iter(d), None)
+            d["zzview"] = "http://zz.view/"
+            if first is not None:
+                d.pop(first)
+            touched += 1
+    for syn in (False, True):
+        for name in ("get_prefixes", "get_uri_prefixes"):
+            try:
+                st = getattr(c, name)(include_synonyms=syn)
+            except Exception:  # noqa: BLE001
+                continue
+            if isinstance(st, set):
+                st.add("zzview")
+                if len(st) > 1:
+                    st.discard(sorted(st)[0])
+                touched += 1
+    probe.S.counters["wl:handed-out-views-edited-by-the-caller"] += touched
+
+
 _SUBCLASS = {}
 ORIG_PREFIX, ORIG_URI = "zzorig", "http://zz.orig/"  # registered on the original of a copied converter after the copy was taken
 GHOST_PREFIXES = ["zzghost", "zzghost2"]  # strings of registrations that must be rejected (rejected_registrations)
 GHOST_URIS = ["http://zz.ghost/", "http://zz.ghost2/"]
-SPECIAL_PREFIXES = [ORIG_PREFIX, *GHOST_PREFIXES]  # no converter of any workload may ever know these
-SPECIAL_URIS = [ORIG_URI, *GHOST_URIS]
+SPECIAL_PREFIXES = [ORIG_PREFIX, *GHOST_PREFIXES, "zzview"]  # no converter of any workload may ever know these
+SPECIAL_URIS = [ORIG_URI, *GHOST_URIS, "http://zz.view/"]
 
 
 def rejected_registrations(api, c, rng):
